@@ -177,7 +177,7 @@ def mc(ctx):
 # ------------------------------------------------------------------------------------------- scenario generation
 def gen(ctx, name, families):
     # + the directed scenarios (ordering established by the driver before the reducer writes), see MRContract!Directed
-    K = dict(Fams=families, Orders='{"cancel-before-write","ctx-before-write"}')
+    K = dict(Fams=families, Orders='{"cancel-before-write","ctx-before-write","workers-held"}')
     cfg = core.render_cfg(spec="GSpec", constants=K, invariants=["Emit", "SaneInv"])
     r = ctx.tlc("MRContractGen", cfg, constants=K, name=name, workers=4, timeout=900)
     return r.printed
